@@ -68,16 +68,24 @@ def rule_R17(ctx, rep, config="c-lib", tag=""):
                 if i.op == "store":
                     pa = resolve_addr(f, i.ops[1])
                     if pa.root == ("g", ARRAY) and (pa.last_field() or "").endswith("vlo_free"):
-                        v = expr.lin(f, i.ops[0], 0, 1)
-                        fa = [a for a in v.t if a.endswith("vlo_free]") and a.startswith("L[@" + ARRAY)]
-                        sa_ = [a for a in v.t if a.endswith("vlo_start]") and a.startswith("L[@" + ARRAY)]
                         n_len += 1
-                        if len(fa) == 1 and len(v.t) == 1 and v.t[fa[0]] == 1:
-                            nxt.append(d + v.c)
-                        elif len(sa_) == 1 and len(v.t) == 1 and v.c == 0:
-                            nxt.append(min(d, 0))   # emptied: not longer than at entry
-                        else:
-                            raise AnalysisBroken("R17: store to the length of vlo_array of a form the rule does not know (%r) at %s" % (v, i.where()))
+                        # `cond ? a : b' / a merged value: every alternative separately
+                        alts = [i.ops[0]]
+                        vi_ = f.inst(strip_casts(f, i.ops[0]))
+                        if vi_ is not None and vi_.op == "phi":
+                            alts = [v_ for (v_, _) in vi_.d["incoming"] if v_.get("k") != "undef"]
+                        elif vi_ is not None and vi_.op == "select":
+                            alts = [vi_.ops[1], vi_.ops[2]]
+                        for a_ in alts:
+                            v = expr.lin(f, a_, 0, 1)
+                            fa = [a for a in v.t if a.endswith("vlo_free]") and a.startswith("L[@" + ARRAY)]
+                            sa_ = [a for a in v.t if a.endswith("vlo_start]") and a.startswith("L[@" + ARRAY)]
+                            if len(fa) == 1 and len(v.t) == 1 and v.t[fa[0]] == 1:
+                                nxt.append(d + v.c)
+                            elif len(sa_) == 1 and len(v.t) == 1 and v.c == 0:
+                                nxt.append(min(d, 0))   # emptied: not longer than at entry
+                            else:
+                                raise AnalysisBroken("R17: store to the length of vlo_array of a form the rule does not know (%r) at %s" % (v, i.where()))
                         continue
                     nxt.append(d)
                 elif i.is_call():
